@@ -24,7 +24,7 @@ inductive MReach (cfg : SrvCfg) (n : Nat) : MState → List String → Prop
       MReach cfg n s log → mstep s env tid op = some (s', effs) → MReach cfg n s' (log ++ enqs effs)
 
 /-- what the writer has written, holds, or will take, in order. -/
-def pending (s : MState) : List String := s.written ++ s.wsend.toList ++ s.sendQ
+def pending (s : MState) : List String := s.written ++ s.wsend.toList ++ s.sendQ.filterMap id
 
 /-- the pool task the reader creates for a `.submit` action (none if the arguments do not decode). -/
 def submitTask : RAct → Option PTask
@@ -86,6 +86,8 @@ theorem runLocal_pool (s : MState) (acts : List RAct) :
       simp only [runLocal, List.filterMap_cons, submitTask]
       obtain ⟨h1, h2, h3, h4, h5⟩ := ih s
       exact ⟨h1, h2, h3, h4, by simpa [enqs] using h5⟩
+    | quit => exact ⟨⟨[], rfl⟩, by simp [runLocal, owed], rfl, rfl, rfl⟩
+    | poolShutdown => exact ⟨⟨[], rfl⟩, by simp [runLocal, owed], rfl, rfl, rfl⟩
     | _ =>
       simp only [runLocal, List.filterMap_cons, submitTask]
       exact ih s
@@ -97,7 +99,7 @@ def peffLines (effs : List PEff) : List String :=
 /-- the fold function of `liftPool`. -/
 def liftF (b : Bool) (acc : MState × List MEff) (e : PEff) : MState × List MEff :=
   match e with
-  | .enqueue l => ({ acc.1 with sendQ := acc.1.sendQ ++ [l] }, acc.2 ++ [.enqueue l])
+  | .enqueue l => ({ acc.1 with sendQ := acc.1.sendQ ++ [some l] }, acc.2 ++ [.enqueue l])
   | .adapterBegin c => (acc.1, acc.2 ++ [.adapterBegin (Proto.showCall c)])
   | .adapterEnd c => (acc.1, acc.2 ++ [.adapterEnd c.name])
   | .handlerExc => (acc.1, if b then acc.2 ++ [.handlerExc] else acc.2)
@@ -106,7 +108,7 @@ theorem liftPool_eq (s : MState) (r : Option (PState × List PEff)) :
     liftPool s r = r.map fun x => x.2.foldl (liftF s.cfg.excHandler.isSome) ({ s with pool := x.1 }, []) := rfl
 
 theorem liftF_foldl (b : Bool) (effs : List PEff) (acc : MState × List MEff) :
-    (effs.foldl (liftF b) acc).1 = { acc.1 with sendQ := acc.1.sendQ ++ peffLines effs } ∧
+    (effs.foldl (liftF b) acc).1 = { acc.1 with sendQ := acc.1.sendQ ++ (peffLines effs).map some } ∧
     enqs (effs.foldl (liftF b) acc).2 = enqs acc.2 ++ peffLines effs := by
   induction effs generalizing acc with
   | nil => simp [peffLines]
@@ -122,7 +124,7 @@ theorem liftF_foldl (b : Bool) (effs : List PEff) (acc : MState × List MEff) :
 
 theorem liftPool_spec {s s' : MState} {r : Option (PState × List PEff)} {effs : List MEff}
     (h : liftPool s r = some (s', effs)) :
-    ∃ p pe, r = some (p, pe) ∧ s' = { s with pool := p, sendQ := s.sendQ ++ peffLines pe } ∧
+    ∃ p pe, r = some (p, pe) ∧ s' = { s with pool := p, sendQ := s.sendQ ++ (peffLines pe).map some } ∧
       enqs effs = peffLines pe := by
   rw [liftPool_eq] at h
   cases r with
@@ -227,10 +229,17 @@ theorem mstep_cases {s s' : MState} {env : InitEnv} {tid : String} {op : MOp} {e
     (tid = "R" ∧ 2 ≤ s.rthr ∧ op = .recv ∧ s.rq = [] ∧ ∃ c rest, s.inbound = c :: rest ∧
       (s', effs) = runLocal (recvState s env c rest) (recvActs s env c)) ∨
     (tid = "R" ∧ ∃ l rest, s.rq = .reply l :: rest ∧
-      s' = (runLocal { s with sendQ := s.sendQ ++ [l] } rest).1 ∧
-      effs = .enqueue l :: (runLocal { s with sendQ := s.sendQ ++ [l] } rest).2) ∨
+      s' = (runLocal { s with sendQ := s.sendQ ++ [some l] } rest).1 ∧
+      effs = .enqueue l :: (runLocal { s with sendQ := s.sendQ ++ [some l] } rest).2) ∨
     (tid ≠ "R" ∧ ∃ a p pe, (∀ r m ar, a ≠ .submit r m ar) ∧ pstep s.pool a = some (p, pe) ∧
-      s' = { s with pool := p, sendQ := s.sendQ ++ peffLines pe } ∧ enqs effs = peffLines pe) := by
+      s' = { s with pool := p, sendQ := s.sendQ ++ (peffLines pe).map some } ∧ enqs effs = peffLines pe) ∨
+    (tid = "R" ∧ 2 ≤ s.rthr ∧ s.rthr ≠ 3 ∧ op = .put ∧ ∃ rest, s.rq = .quit :: rest ∧
+      s' = { s with sendQ := s.sendQ ++ [none], rq := rest, cpc := 1 } ∧ effs = [.enqueuePill]) ∨
+    (tid = "R" ∧ 2 ≤ s.rthr ∧ s.rthr ≠ 3 ∧ op = .join ∧ (∃ rest, s.rq = .poolShutdown :: rest) ∧ s.cpc = 1 ∧ s.wthr = 3 ∧
+      s' = { s with cpc := 2 } ∧ effs = []) ∨
+    (tid = "R" ∧ 2 ≤ s.rthr ∧ s.rthr ≠ 3 ∧ op = .poolWait ∧ (∃ rest, s.rq = .poolShutdown :: .sockClose :: rest) ∧
+      s.cpc = 2 ∧ s.pool.running = 0 ∧ s.pool.workQ = [] ∧
+      s' = { s with cpc := 3, sockClosed := true, rq := [], rthr := 3 } ∧ effs = [.sockClose]) := by
   unfold mstep at h
   split at h
   · next hP =>
@@ -264,17 +273,37 @@ theorem mstep_cases {s s' : MState} {env : InitEnv} {tid : String} {op : MOp} {e
           split at h
           · cases h
           · next h0 =>
+            have h2 : 2 ≤ s.rthr := by omega
+            have h3 : s.rthr ≠ 3 := by omega
             split at h
             · next hrq =>
               split at h
               · cases h
               · next c rest hin =>
                 simp only [Option.some.injEq] at h
-                exact .inr (.inl ⟨hR, by omega, rfl, hrq, c, rest, hin, h.symm⟩)
+                exact .inr (.inl ⟨hR, h2, rfl, hrq, c, rest, hin, h.symm⟩)
             · next l rest hrq =>
               simp only [Option.some.injEq, Prod.mk.injEq] at h
               obtain ⟨rfl, rfl⟩ := h
               exact .inr (.inr (.inl ⟨hR, l, rest, hrq, rfl, rfl⟩))
+            · next rest hrq =>
+              simp only [Option.some.injEq, Prod.mk.injEq] at h
+              obtain ⟨rfl, rfl⟩ := h
+              exact .inr (.inr (.inr (.inr (.inl ⟨hR, h2, h3, rfl, rest, hrq, rfl, rfl⟩))))
+            · next rest hrq =>
+              split at h
+              · next hc =>
+                simp only [Option.some.injEq, Prod.mk.injEq] at h
+                obtain ⟨rfl, rfl⟩ := h
+                exact .inr (.inr (.inr (.inr (.inr (.inl ⟨hR, h2, h3, rfl, ⟨rest, hrq⟩, hc.1, hc.2, rfl, rfl⟩)))))
+              · cases h
+            · next rest hrq =>
+              split at h
+              · next hc =>
+                simp only [Option.some.injEq, Prod.mk.injEq] at h
+                obtain ⟨rfl, rfl⟩ := h
+                exact .inr (.inr (.inr (.inr (.inr (.inr ⟨hR, h2, h3, rfl, ⟨rest, hrq⟩, hc.1, hc.2.1, hc.2.2, rfl, rfl⟩)))))
+              · cases h
             · cases h
       · next hR =>
         split at h
@@ -293,6 +322,10 @@ theorem mstep_cases {s s' : MState} {env : InitEnv} {tid : String} {op : MOp} {e
                   simp only [Option.some.injEq, Prod.mk.injEq] at h
                   obtain ⟨rfl, rfl⟩ := h
                   exact .inl ⟨rfl, rfl, by simp [pending, enqs, hws, hq], .inl hR⟩
+                · next rest hq =>
+                  simp only [Option.some.injEq, Prod.mk.injEq] at h
+                  obtain ⟨rfl, rfl⟩ := h
+                  exact .inl ⟨rfl, rfl, by simp [pending, enqs, hws, hq], .inl hR⟩
                 · cases h
               · next m hws =>
                 simp only [Option.some.injEq, Prod.mk.injEq] at h
@@ -306,20 +339,24 @@ theorem mstep_cases {s s' : MState} {env : InitEnv} {tid : String} {op : MOp} {e
               all_goals first
                 | cases h
                 | (obtain ⟨p, pe, hp, rfl, he⟩ := liftPool_spec h
-                   refine .inr (.inr (.inr ⟨hR, _, p, pe, ?_, hp, rfl, he⟩))
+                   refine .inr (.inr (.inr (.inl ⟨hR, _, p, pe, ?_, hp, rfl, he⟩)))
                    intro r m ar hh; cases hh)
           · cases h
 
 /-- **projection.** One step of the server model moves the pool by a run of pool actions. -/
 theorem mstep_pool {s s' : MState} {env : InitEnv} {tid : String} {op : MOp} {effs : List MEff}
     (h : mstep s env tid op = some (s', effs)) : ∃ pa, prun s.pool pa = some s'.pool := by
-  rcases mstep_cases h with ⟨hp, -⟩ | ⟨-, -, -, -, c, rest, -, he⟩ | ⟨-, l, rest, -, rfl, -⟩ | ⟨-, a, p, pe, -, hp, rfl, -⟩
+  rcases mstep_cases h with ⟨hp, -⟩ | ⟨-, -, -, -, c, rest, -, he⟩ | ⟨-, l, rest, -, rfl, -⟩ | ⟨-, a, p, pe, -, hp, rfl, -⟩ |
+    ⟨-, -, -, -, rest, -, rfl, -⟩ | ⟨-, -, -, -, -, -, -, rfl, -⟩ | ⟨-, -, -, -, -, -, -, -, rfl, -⟩
   · exact ⟨[], by rw [hp]; rfl⟩
   · have h1 := (runLocal_pool (recvState s env c rest) (recvActs s env c)).1
     rw [← he] at h1
     exact h1
-  · exact (runLocal_pool { s with sendQ := s.sendQ ++ [l] } rest).1
+  · exact (runLocal_pool { s with sendQ := s.sendQ ++ [some l] } rest).1
   · exact ⟨[a], by simp [prun, hp]⟩
+  · exact ⟨[], rfl⟩
+  · exact ⟨[], rfl⟩
+  · exact ⟨[], rfl⟩
 
 /-- the pool of every reachable server state is reachable in the pool machine (same pool size). -/
 theorem mreach_pool {cfg : SrvCfg} {n : Nat} {s : MState} {log : List String} (h : MReach cfg n s log) :
@@ -340,34 +377,42 @@ theorem mreach_pinv {cfg : SrvCfg} {n : Nat} {s : MState} {log : List String} (h
 theorem mstep_fifo {s s' : MState} {env : InitEnv} {tid : String} {op : MOp} {effs : List MEff}
     (h : mstep s env tid op = some (s', effs)) : pending s' = pending s ++ enqs effs := by
   rcases mstep_cases h with ⟨-, -, hp, -⟩ | ⟨-, -, -, -, c, rest, -, he⟩ | ⟨-, l, rest, -, rfl, rfl⟩ |
-    ⟨-, a, p, pe, -, -, rfl, he⟩
+    ⟨-, a, p, pe, -, -, rfl, he⟩ |
+    ⟨-, -, -, -, rest, -, rfl, rfl⟩ | ⟨-, -, -, -, -, -, -, rfl, rfl⟩ | ⟨-, -, -, -, -, -, -, -, rfl, rfl⟩
   · exact hp
   · obtain ⟨-, -, -, h4, h5⟩ := runLocal_pool (recvState s env c rest) (recvActs s env c)
     rw [← he] at h4 h5
     rw [h4, h5, List.append_nil]
     rfl
-  · obtain ⟨-, -, -, h4, h5⟩ := runLocal_pool { s with sendQ := s.sendQ ++ [l] } rest
+  · obtain ⟨-, -, -, h4, h5⟩ := runLocal_pool { s with sendQ := s.sendQ ++ [some l] } rest
     rw [h4]
     simp [pending, enqs] at h5 ⊢
     exact h5
   · rw [he]
     simp [pending]
+  · simp [pending, enqs]
+  · simp [pending, enqs]
+  · simp [pending, enqs]
 
 /-- every line the pool put out was enqueued by that very step (and only pool-thread steps extend
     `pool.out`). -/
 theorem mstep_pool_out {s s' : MState} {env : InitEnv} {tid : String} {op : MOp} {effs : List MEff}
     (h : mstep s env tid op = some (s', effs)) :
     s'.pool.out = s.pool.out ∨ ∃ l, s'.pool.out = s.pool.out ++ [l] ∧ enqs effs = [l] := by
-  rcases mstep_cases h with ⟨hp, -⟩ | ⟨-, -, -, -, c, rest, -, he⟩ | ⟨-, l, rest, -, rfl, -⟩ | ⟨-, a, p, pe, hns, hp, rfl, he⟩
+  rcases mstep_cases h with ⟨hp, -⟩ | ⟨-, -, -, -, c, rest, -, he⟩ | ⟨-, l, rest, -, rfl, -⟩ | ⟨-, a, p, pe, hns, hp, rfl, he⟩ |
+    ⟨-, -, -, -, rest, -, rfl, -⟩ | ⟨-, -, -, -, -, -, -, rfl, -⟩ | ⟨-, -, -, -, -, -, -, -, rfl, -⟩
   · exact .inl (by rw [hp])
   · have h3 := (runLocal_pool (recvState s env c rest) (recvActs s env c)).2.2.1
     rw [← he] at h3
     exact .inl h3
-  · exact .inl (runLocal_pool { s with sendQ := s.sendQ ++ [l] } rest).2.2.1
+  · exact .inl (runLocal_pool { s with sendQ := s.sendQ ++ [some l] } rest).2.2.1
   · rw [he]
     rcases (pstep_proj hp hns).2 with ⟨h1, h2⟩ | ⟨l, h1, h2⟩
     · exact .inl h1
     · exact .inr ⟨l, h1, h2⟩
+  · exact .inl rfl
+  · exact .inl rfl
+  · exact .inl rfl
 
 /-- **the send queue neither loses, duplicates nor reorders**: written ++ held ++ queued is exactly the log
     of everything enqueued so far. -/
@@ -381,7 +426,7 @@ theorem mreach_pending {cfg : SrvCfg} {n : Nat} {s : MState} {log : List String}
 theorem mreach_written_prefix {cfg : SrvCfg} {n : Nat} {s : MState} {log : List String} (h : MReach cfg n s log) :
     s.written <+: log := by
   rw [← mreach_pending h]
-  exact ⟨s.wsend.toList ++ s.sendQ, by simp [pending]⟩
+  exact ⟨s.wsend.toList ++ s.sendQ.filterMap id, by simp [pending]⟩
 
 /-- **every reply the pool produced was enqueued, in the pool's order.** -/
 theorem mreach_out_sublist {cfg : SrvCfg} {n : Nat} {s : MState} {log : List String} (h : MReach cfg n s log) :
@@ -401,9 +446,11 @@ theorem mreach_drained {cfg : SrvCfg} {n : Nat} {s : MState} {log : List String}
   simpa [pending, hq, hw] using h1
 
 /-- **the reader hands every decodable request to the pool exactly once, in line order**: after a step the
-    tasks created plus those still owed are the previous ones plus the step's newly dispatched requests. -/
+    tasks created plus those still owed are the previous ones plus the step's newly dispatched requests.
+    (The one exception is the last step of `close()`, `.poolWait`, after which the reader has left its loop: whatever
+    followed the honoured close request in the same read is dropped — see `mstep_tasks_closed`.) -/
 theorem mstep_tasks {s s' : MState} {env : InitEnv} {tid : String} {op : MOp} {effs : List MEff}
-    (h : mstep s env tid op = some (s', effs)) :
+    (h : mstep s env tid op = some (s', effs)) (hop : op ≠ .poolWait) :
     (s'.pool.tasks.map (fun t => (t.rid, t.method, t.args)) ++ (owed s').map (fun t => (t.rid, t.method, t.args)) =
       s.pool.tasks.map (fun t => (t.rid, t.method, t.args)) ++ (owed s).map (fun t => (t.rid, t.method, t.args)) ++
         (if tid = "R" ∧ 2 ≤ s.rthr ∧ s.rq = [] then
@@ -414,7 +461,8 @@ theorem mstep_tasks {s s' : MState} {env : InitEnv} {tid : String} {op : MOp} {e
           | _, _ => []
          else [])) := by
   rcases mstep_cases h with ⟨hp, hq, -, hne⟩ | ⟨hR, h2, rfl, hrq, c, rest, hin, he⟩ | ⟨-, l, rest, hrq, rfl, -⟩ |
-    ⟨hR, a, p, pe, hns, hp, rfl, -⟩
+    ⟨hR, a, p, pe, hns, hp, rfl, -⟩ |
+    ⟨-, -, -, -, rest, hrq, rfl, -⟩ | ⟨-, -, -, -, ⟨rest, hrq⟩, -, -, rfl, -⟩ | ⟨-, -, -, rfl, -⟩
   · have hg : ¬ (tid = "R" ∧ 2 ≤ s.rthr ∧ s.rq = []) := by
       rintro ⟨h1, h2, -⟩
       rcases hne with h | h
@@ -431,7 +479,7 @@ theorem mstep_tasks {s s' : MState} {env : InitEnv} {tid : String} {op : MOp} {e
     simp only [owed, hrq, List.filterMap_nil, List.map_nil, List.append_nil]
     rfl
   · rw [if_neg (by rintro ⟨-, -, h3⟩; rw [hrq] at h3; cases h3), List.append_nil]
-    have h2 := (runLocal_pool { s with sendQ := s.sendQ ++ [l] } rest).2.1
+    have h2 := (runLocal_pool { s with sendQ := s.sendQ ++ [some l] } rest).2.1
     have h3 := congrArg (List.map fun t : PTask => (t.rid, t.method, t.args)) h2
     simp only [List.map_append] at h3
     rw [h3]
@@ -440,5 +488,21 @@ theorem mstep_tasks {s s' : MState} {env : InitEnv} {tid : String} {op : MOp} {e
   · rw [if_neg (fun h => hR h.1), List.append_nil]
     simp only [owed]
     rw [(pstep_proj hp hns).1]
+  · rw [if_neg (by rintro ⟨-, -, h3⟩; rw [hrq] at h3; cases h3), List.append_nil]
+    simp only [owed, hrq]
+    rfl
+  · rw [if_neg (by rintro ⟨-, -, h3⟩; rw [hrq] at h3; cases h3), List.append_nil]
+    simp [owed]
+  · exact absurd rfl hop
+
+/-- the last step of `close()`: the pool keeps its tasks; whatever the reader still owed is dropped (it has left its
+    loop). -/
+theorem mstep_tasks_closed {s s' : MState} {env : InitEnv} {tid : String} {effs : List MEff}
+    (h : mstep s env tid .poolWait = some (s', effs)) : s'.pool = s.pool ∧ owed s' = [] := by
+  unfold mstep at h
+  repeat' split at h
+  all_goals first
+    | contradiction
+    | (simp only [Option.some.injEq, Prod.mk.injEq] at h; obtain ⟨rfl, rfl⟩ := h; exact ⟨rfl, rfl⟩)
 
 end Ari.Conc
